@@ -47,7 +47,7 @@ func vhPrecClass(ops []vhOp) string {
 // parenthesised form, for every choice of operators; operand values are small integers, one symbolic.
 func VH_C08_Paren() {
 	k := symParam("K", 2)
-	names := []string{"a", "b", "c", "d"}
+	names := []string{"a", "b", "c", "d", "f"}
 	var ops []vhOp
 	flat := "a"
 	for i := 0; i < k; i++ {
@@ -59,7 +59,7 @@ func VH_C08_Paren() {
 	symTag("prec:" + vhPrecClass(ops))
 	a := symInt()
 	symAssume(a >= 1 && a <= 3)
-	ctx := map[string]interface{}{"a": a, "b": 2, "c": 3, "d": 5}
+	ctx := map[string]interface{}{"a": a, "b": 2, "c": 3, "d": 5, "f": 7}
 	e := New()
 	if e.RegisterString("flat", "{{ "+flat+" }}") != nil || e.RegisterString("full", "{{ "+full+" }}") != nil {
 		symAssert(false, "expression-parses")
